@@ -62,6 +62,16 @@ def scen_c17(r):
         c = g.emit(Op(12, 'loose', vs('int'), False, False, False, False, NONE, NONE, None, []))
         other = r.choice(cols)
         side = r.random() < 0.5
+        if r.random() < 0.4 and len(cols) >= 2:
+            # composite: the detached column at any position of its side
+            good = r.sample(cols, 2)
+            bad = [good[0], c] if r.random() < 0.6 else [c, good[0]]
+            rf = g.emit(Op(15, r.choice(['>', '<', '-']), bad if side else good, good if side else bad,
+                           None, None, None, None, False))
+            k = g.emit(Op(80, rf))
+            sc.want(k, TNF, 'SQL of a composite reference with a detached column (any position) raises table-not-found')
+            g.emit(Op(81, rf))
+            return sc
         rf = g.emit(Op(15, r.choice(['>', '<', '-', '<>']), [c] if side else [other], [other] if side else [c],
                        None, None, None, None, r.random() < 0.5))
         k = g.emit(Op(80, rf))
